@@ -69,6 +69,8 @@ typedef struct {
         RLE_RUN,  /* buffer up to the current position is a run */
         RLE_MIX   /* buffer up to the current position is a mix */
     } rle_state;  /* state of the buffer storage */
+    int encoding; /* TRUE when the state above belongs to the encoder (bytes taken but not
+                     written out yet), FALSE when it was left by the decoder */
 } comp_coder_rle_info_t;
 
 #ifdef __cplusplus
